@@ -23,6 +23,7 @@ THEOREMS = [
     "MoreExec.Throttle.C07_blocking_guard_facts",
     "MoreExec.Throttle.C07_block_test_spec",
     "MoreExec.Throttle.C07_admission_notifies_iff_popped",
+    "MoreExec.Throttle.C07_admission_is_block_pop",
     "MoreExec.BlockProto.C07_blocked_only_while_full",
     "MoreExec.BlockProto.C07_room_wakes_all",
     "MoreExec.Throttle.C07_admission_kernel",
